@@ -192,7 +192,8 @@ func changeNode(r *gen.RNG, p gen.Profile, v any) any {
 var confusable = []string{``, `null`, `""`, `[]`, `{}`, `0`, `false`, `true`, `1`, `"0"`, `"null"`, `"false"`, `"[]"`, `"{}"`, `"a"`,
 	`[[]]`, `[""]`, `[{}]`, `[null]`, `[0]`, `[false]`, `[[],[]]`, `["",""]`, `[[],""]`, `["",[]]`, `[[[]]]`, `[[""]]`, `[{},{}]`,
 	`{"":""}`, `{"a":[]}`, `{"a":""}`, `{"a":{}}`, `{"a":null}`, `{"a":1,"b":2}`, `{"a":2,"b":1}`, `{"a":"b"}`, `{"b":"a"}`, `-0`, `[-0]`, `[0,0]`, `[0,-0]`, `[1,2]`, `[2,1]`, `[1,1,2]`, `[1,2,2]`, `[[1,2],[2,1]]`, `[[2,1],[1,2]]`, `[[1,2]]`,
-	`"a\n"`, `"a "`, `" a"`, `"A"`, `"a\u0000"`, `{"a\n":1}`, `{"a":1}`}
+	`"a\n"`, `"a "`, `" a"`, `"A"`, `"a\u0000"`, `{"a\n":1}`, `{"a":1}`,
+	`{"A":1}`, `{"a ":1}`, `{" a":1}`, `{"\u00e9":1}`, `{"e\u0301":1}`, `{"k":1}`, `{"K":1}`, `{"\u212a":1}`, `"\u00e9"`, `"e\u0301"`, `{"a":1,"A":1}`}
 
 // midDiffPair returns two strings of n bytes that are equal except for one
 // byte in the middle (same length, same head, same tail).
